@@ -120,7 +120,7 @@ PROPS["C03"] = {
 
 PROPS["C18"] = {
     "level": "other",
-    "rules": [p_plan.sync, p_plan.plan_mono, p_modes.dom_mode, p_plan.prov_plan, p_modes.fld_enc, p_b256.b256_sync, p_plan.cost_write],
+    "rules": [p_plan.sync, p_plan.plan_mono, p_modes.dom_mode, p_plan.prov_plan, p_modes.fld_enc, p_b256.b256_sync, p_plan.cost_write, p_plan.val_size],
     "explanation": "Clause-level claim. The agreement between the planner's end-of-data prices and the encoders' handle_end behaviour "
                    "(and hence `the latches in the output are exactly the plan's modes` and `never a larger symbol than predicted`) is "
                    "arithmetic in two independently written state machines and is NOT decided (known: an EDIFACT run followed by exactly "
@@ -129,7 +129,12 @@ PROPS["C18"] = {
                    "planner positions and the encoder's chars_left count the same characters; PLAN-MONO - switch positions are rest_len "
                    "values that never increase and the list ends with (0, mode), append-only; PLAN-MODES (= C13 DOM-MODE) - only enabled "
                    "modes; PROV-PLAN - the planning API and the encoder obtain the plan from the same optimize() call shape and the "
-                   "encoder consumes it unmodified, front entry exactly at its position.",
+                   "encoder consumes it unmodified, front entry exactly at its position; and three planner/encoder table agreements: "
+                   "B256-SYNC (the planner prices the second Base256 length codeword for exactly the run lengths for which the encoder "
+                   "writes it, and abandons a run one byte past what the length field can express), COST-WRITE (every whole codeword "
+                   "priced by the ASCII/Base256 plans is also booked into the symbol-fill counter that later modes' end-of-data rules "
+                   "read), VAL-SIZE (the per-byte value counts and base-set predicates the planner charges equal what the encoder's "
+                   "C40/Text tables emit for all 256 bytes; 3/4, 2/3, 1/2 per-character prices equal the packing ratios).",
     "assumptions": ["default cargo features"],
     "technique": "list-role typestate + provenance rules over THIR, MIR dominance",
 }
@@ -212,14 +217,16 @@ PROPS["C11"] = {
 
 PROPS["C10"] = {
     "level": "other",
-    "rules": [p_symbols.capacity_info, p_wire.gate_hint, p_wire.prov_sym, p_symbols.ord_rule, p_symbols.prov_filter, p_plan.cost_write, p_b256.b256_sync],
+    "rules": [p_symbols.capacity_info, p_wire.gate_hint, p_wire.prov_sym, p_symbols.ord_rule, p_symbols.prov_filter, p_plan.cost_write, p_b256.b256_sync, p_plan.val_size],
     "explanation": "Clause-level claim (gates and tie-break only). Minimality itself quantifies over every alternative legal encoding of "
                    "every input; its truth lives in the arithmetic of six cost models and their agreement with six encoders and is NOT "
                    "decided (known: ABCDEFGH12345678 gets a 16-codeword symbol where ASCII needs 12 - the EDIFACT four-final-digits "
                    "mismatch). Decided: GATE-CAP - the early `too much data` rejection is sound because every size's capacity().max is "
                    ">= 2 * data codewords (digit pairs are the densest encodation) and max_capacity() is the maximum over the list; "
                    "GATE-HINT - the reservation hint is Some for every non-empty list, so it never turns into a refusal; TIE-ORDER - the "
-                   "returned symbol is the first of the BTreeSet order (capacity, then diagonal; keys pairwise distinct) that is big enough.",
+                   "returned symbol is the first of the BTreeSet order (capacity, then diagonal; keys pairwise distinct) that is big enough; "
+                   "and the planner/encoder table agreements B256-SYNC, COST-WRITE, VAL-SIZE (see C18), which are necessary for the "
+                   "planner's minimum to be realised by the encoder.",
     "assumptions": ["default cargo features"],
     "technique": "table inequalities + provenance rules over THIR",
 }
